@@ -48,6 +48,7 @@ package tls
 //@ ensures [needs-enough-bytes] result1 == nil ==> info != nil && info.countSet && len(data) >= int(info.count)
 //@ ensures [value-passed-the-bounds-check] result1 == nil ==> ck.called && ck.res == nil && ck.val == result0
 //@ ensures [error-yields-zero] result1 != nil ==> result0 == 0
+//@ ensures [enough-bytes-and-a-value-inside-the-bounds-are-accepted] info != nil && info.countSet && len(data) >= int(info.count) ==> ck.called && (ck.res == nil ==> result1 == nil)
 
 //@ func parseField
 //@ props C09 C04
@@ -109,10 +110,12 @@ package tls
 //@ func generateHash
 //@ props C05
 //@ pure
+//@ dead return#2
 //@ site New#1 as nw
 //@ site Write#1 as wr
 //@ site Sum#1 as sm
 //@ ensures [exactly-the-six-tls-hashes-are-supported] (result2 == nil ==> MD5 <= algo && algo <= SHA512) && ((algo < MD5 || algo > SHA512) ==> result2 != nil && !nw.called)
+//@ ensures [each-of-the-six-tls-hashes-is-accepted] MD5 <= algo && algo <= SHA512 ==> result2 == nil
 //@ ensures [declared-hash-selects-the-crypto-hash] result2 == nil ==> (algo == MD5 ==> result1 == crypto.MD5) && (algo == SHA1 ==> result1 == crypto.SHA1) && (algo == SHA224 ==> result1 == crypto.SHA224) && (algo == SHA256 ==> result1 == crypto.SHA256) && (algo == SHA384 ==> result1 == crypto.SHA384) && (algo == SHA512 ==> result1 == crypto.SHA512)
 //@ ensures [digest-is-of-exactly-the-data-under-that-hash] result2 == nil ==> nw.called && nw.h == result1 && wr.called && wr.recv == nw.res && wr.p == data && sm.called && sm.recv == nw.res && len(sm.b) == 0 && result0 == sm.res
 
